@@ -328,6 +328,7 @@ type harnessResult struct {
 	unreached  []string
 	validated  int
 	mismatches []string
+	nativeViol []string // assertion failures of native-only harnesses (violations of the property)
 }
 
 func cmdCheck(args []string) int {
@@ -678,6 +679,16 @@ func report(prop, tier string, seed int, results []*harnessResult, start time.Ti
 		for _, m := range r.mismatches {
 			inconclusive = append(inconclusive, r.h.name+": translator validation: "+m)
 		}
+		for i, m := range r.nativeViol {
+			path := filepath.Join(verifDir, "replays", fmt.Sprintf("%s-%s-native%d.json", prop, r.h.name, i))
+			b, _ := json.MarshalIndent(map[string]interface{}{"harness": r.h.name, "kind": "assert", "msg": strings.TrimPrefix(m, "assert: "), "pos": "native-only harness", "inputs": map[string]interface{}{}}, "", " ")
+			os.MkdirAll(filepath.Dir(path), 0o755)
+			os.WriteFile(path, b, 0o644)
+			fmt.Printf("VIOLATION property=%s replay=%s\n", prop, path)
+			fmt.Printf("  harness=%s kind=assert (native-only harness, run against the compiled code): %s\n", r.h.name, m)
+			violations++
+			exit = 1
+		}
 		for _, l := range r.unreached {
 			inconclusive = append(inconclusive, fmt.Sprintf("%s: vacuity: witness %q never reached", r.h.name, l))
 		}
@@ -966,6 +977,11 @@ func validateNativeOnly(r *harnessResult) {
 	outcome, full, err := runNative(rel, name, r.h.name, path, 140)
 	if err != nil {
 		r.mismatches = append(r.mismatches, fmt.Sprintf("native validation driver failed to run: %v", err))
+		return
+	}
+	if strings.HasPrefix(outcome, "assert: ") || strings.HasPrefix(outcome, "panic:") {
+		// a native-only harness asserts about the real code directly: its failure is a violation
+		r.nativeViol = append(r.nativeViol, outcome)
 		return
 	}
 	if outcome != "completed" {
